@@ -233,7 +233,7 @@ example : revocationFinal [.ok, .unknown, .unknown] = (.unknown, some 1) := by d
 def sample : Input :=
   { vec := [.ok], chainLen := 1, scheme := .x509, iface := .validator, level := .strict, revOverride := none,
     otherOverrides := [], policyForm := "code", validatorError := false, errorKind := "", callerCtx := "background",
-    methods := [], serverErrors := [], errorWithResults := false, deprecatedCtor := false, identityPlugin := false,
+    methods := [], servers := [], validatorImpl := "scripted", errorWithResults := false, deprecatedCtor := false, identityPlugin := false,
     bothSupplied := false, variant := "" }
 
 example : Holds { sample with vec := [.unknown, .revoked], chainLen := 2, iface := .client }
@@ -293,11 +293,20 @@ example : Holds { sample with validatorError := true, errorKind := "wrapDeadline
     { outcome := .pass, named := none, accepted := true, resultAction := some .enforce, calls := 1, chainLen := some 1,
       signingTime := some false, usedIface := some .validator } = false := by decide
 
-/-- what else is true of the signature, of the policy statement (overrides of other types, how the policy
+/-- non-vacuity (seeded change C05-18): an OK leaf in front of an intermediate whose status is unknown because
+every one of its OCSP responders timed out does not pass, and an observation that lets it pass fails `Holds` -/
+example : (run { sample with vec := [.ok, .unknown, .nonRevokable], chainLen := 3, servers := [["ok/none"], ["unknown/ocspTimeout", "unknown/ocspTimeout"], []] }).outcome = .unknown := by decide
+example : Holds { sample with vec := [.ok, .unknown, .nonRevokable], chainLen := 3, servers := [["ok/none"], ["unknown/ocspTimeout"], []] }
+    { outcome := .pass, named := none, accepted := true, resultAction := some .enforce, calls := 1, chainLen := some 3,
+      signingTime := some false, usedIface := some .validator } = false := by decide
+
+/-- what else is true of the signature, of the per-server results behind the per-certificate ones (how many
+servers, which typed errors they carry), of the validator implementation, of the policy statement (overrides of other types, how the policy
 was written), of the validator's error (its kind: plain, wrapping a context or deadline error, typed, empty
 message) and of the caller's context is not an input of the revocation decision -/
-theorem variant_irrelevant (i : Input) (v : String) (b : Bool) (oo : List String) (pf ek cc : String) :
-    run { i with variant := v, bothSupplied := b, otherOverrides := oo, policyForm := pf, errorKind := ek, callerCtx := cc } = run i := by
+theorem variant_irrelevant (i : Input) (v : String) (b : Bool) (oo : List String) (pf ek cc vi : String)
+    (ms : List String) (sv : List (List String)) :
+    run { i with variant := v, bothSupplied := b, otherOverrides := oo, policyForm := pf, errorKind := ek, callerCtx := cc, methods := ms, servers := sv, validatorImpl := vi } = run i := by
   simp [run, Input.action]
 
 /-! ### tie to the translated source -/
